@@ -147,3 +147,26 @@ def conflict_sig(a, b, depth=0):
         for x, y in zip(a["a"], b["a"]):
             out.add(shape_of(x) + ">" + shape_of(y))
     return out
+
+
+def fix_eval_candidate(cand, base):
+    """shrinking keeps 'eval' cases with expectations well formed: the expectations were computed for exactly this
+    configuration, so only whole (read, expectation) pairs may go"""
+    if cand.get("k") == "eval" and "expect" in base:
+        for k in ("from", "merges", "opts", "ropts"):
+            if cand.get(k) != base.get(k):
+                return None
+        br, be = base.get("reads") or [], base.get("expect") or []
+        cr, ce = cand.get("reads"), cand.get("expect")
+        if not isinstance(cr, list) or not isinstance(ce, list) or len(br) != len(be):
+            return None
+        if len(cr) == len(br) - 1 and ce == be:
+            i = next((j for j in range(len(cr)) if cr[j] != br[j]), len(cr))
+            if cr != br[:i] + br[i + 1:]:
+                return None
+            cand["expect"] = be[:i] + be[i + 1:]
+        elif cr != br or ce != be:
+            return None
+        if not cand["reads"]:
+            return None
+    return cand
